@@ -413,4 +413,393 @@ theorem profile_max (n S tau : ℝ) (hn : 0 < n) (hS : 0 < S) (ht : 0 < tau) :
     have := Real.log_lt_sub_one_of_pos hx hne1
     nlinarith
 
+/-! ## `_handle_amplitude_constraint` -/
+
+theorem sum_take_scatter (n : Nat) : ∀ (ps : List Rat) (fixed : List Bool) (xs : List Rat),
+    n ≤ ps.length → n ≤ fixed.length → countTrue n (fixed.map (!·)) ≤ xs.length →
+    ((scatter ps (fixed.map (!·)) xs).take n).sum
+      = ampSum n ps fixed + (xs.take (countTrue n (fixed.map (!·)))).sum := by
+  induction n with
+  | zero => intro ps fixed xs _ _ _; simp [ampSum, countTrue]
+  | succ n ih =>
+    intro ps fixed xs hp hf hx
+    match ps, fixed, hp, hf with
+    | p :: ps, true :: fs, hp, hf =>
+      have hp' : n ≤ ps.length := by simpa using hp
+      have hf' : n ≤ fs.length := by simpa using hf
+      simp only [List.map_cons, Bool.not_true, countTrue] at hx ⊢
+      simp only [scatter, List.take_succ_cons, List.sum_cons, ampSum, if_true]
+      rw [ih ps fs xs hp' hf' (by simpa using hx)]
+      simp
+      ring
+    | p :: ps, false :: fs, hp, hf =>
+      have hp' : n ≤ ps.length := by simpa using hp
+      have hf' : n ≤ fs.length := by simpa using hf
+      simp only [List.map_cons, Bool.not_false, countTrue, if_true] at hx ⊢
+      match xs, hx with
+      | [], hx => simp at hx
+      | x :: xs, hx =>
+        have hx' : countTrue n (fs.map (!·)) ≤ xs.length := by simp at hx; omega
+        simp only [scatter, List.take_succ_cons, List.sum_cons, ampSum]
+        rw [ih ps fs xs hp' hf' hx', Nat.add_comm 1, List.take_succ_cons, List.sum_cons]
+        simp
+        ring
+
+theorem fixFree_spec (n : Nat) : ∀ (ps : List Rat) (fixed : List Bool) (v : Rat),
+    n ≤ ps.length → n ≤ fixed.length → countTrue n (fixed.map (!·)) = 1 →
+    (((fixFree n ps (fixed.map (!·)) v).1).take n).sum = ampSum n ps fixed + v
+    ∧ countTrue n (fixFree n ps (fixed.map (!·)) v).2 = 0
+    ∧ ((fixFree n ps (fixed.map (!·)) v).1).drop n = ps.drop n
+    ∧ ((fixFree n ps (fixed.map (!·)) v).2).drop n = (fixed.map (!·)).drop n := by
+  induction n with
+  | zero => intro ps fixed v _ _ h; simp [countTrue] at h
+  | succ n ih =>
+    intro ps fixed v hp hf h1
+    match ps, fixed, hp, hf with
+    | p :: ps, true :: fs, hp, hf =>
+      have hp' : n ≤ ps.length := by simpa using hp
+      have hf' : n ≤ fs.length := by simpa using hf
+      simp only [List.map_cons, Bool.not_true, countTrue] at h1 ⊢
+      have h1' : countTrue n (fs.map (!·)) = 1 := by simpa using h1
+      obtain ⟨a, b, c, d⟩ := ih ps fs v hp' hf' h1'
+      simp only [fixFree, Bool.false_eq_true, if_false, List.take_succ_cons, List.sum_cons, ampSum,
+        if_true, countTrue, List.drop_succ_cons]
+      refine ⟨?_, ?_, c, d⟩
+      · rw [a]; ring
+      · simpa using b
+    | p :: ps, false :: fs, hp, hf =>
+      have hp' : n ≤ ps.length := by simpa using hp
+      have hf' : n ≤ fs.length := by simpa using hf
+      simp only [List.map_cons, Bool.not_false, countTrue, if_true] at h1 ⊢
+      have h0 : countTrue n (fs.map (!·)) = 0 := by omega
+      -- all remaining amplitudes are fixed
+      have hall : ∀ (m : Nat) (qs : List Rat) (gs : List Bool), m ≤ qs.length → m ≤ gs.length →
+          countTrue m (gs.map (!·)) = 0 → (qs.take m).sum = ampSum m qs gs := by
+        intro m
+        induction m with
+        | zero => intro qs gs _ _ _; simp [ampSum]
+        | succ m ihm =>
+          intro qs gs hq hg hc
+          match qs, gs, hq, hg with
+          | q :: qs, true :: gs, hq, hg =>
+            simp only [List.map_cons, Bool.not_true, countTrue] at hc
+            simp only [List.take_succ_cons, List.sum_cons, ampSum, if_true]
+            rw [ihm qs gs (by simpa using hq) (by simpa using hg) (by simpa using hc)]
+          | q :: qs, false :: gs, hq, hg =>
+            simp only [List.map_cons, Bool.not_false, countTrue, if_true] at hc
+            omega
+      simp only [fixFree, if_true, List.take_succ_cons, List.sum_cons, ampSum, countTrue,
+        Bool.false_eq_true, if_false, List.drop_succ_cons]
+      refine ⟨?_, ?_, trivial, trivial⟩
+      · rw [hall n ps fs hp' hf' h0]; simp; ring
+      · simpa using h0
+
+/-- everything `handleConstraint` can answer, by cases -/
+theorem handleConstraint_cases (n : Nat) (params : List Rat) (mask : Option (List Bool)) (c : Constraint)
+    (h : handleConstraint n params mask = some c) :
+    (fixedOf params mask).length = params.length ∧ params.length = 2 * n
+    ∧ ampSum n params (fixedOf params mask) ≤ 1
+    ∧ ((countTrue n ((fixedOf params mask).map (!·)) = 1
+        ∧ c = ⟨(fixFree n params ((fixedOf params mask).map (!·)) (1 - ampSum n params (fixedOf params mask))).2, 0,
+              ampSum n params (fixedOf params mask) + (1 - ampSum n params (fixedOf params mask)),
+              (fixFree n params ((fixedOf params mask).map (!·)) (1 - ampSum n params (fixedOf params mask))).1⟩)
+      ∨ (countTrue n ((fixedOf params mask).map (!·)) ≠ 1
+        ∧ c = ⟨(fixedOf params mask).map (!·), countTrue n ((fixedOf params mask).map (!·)),
+              ampSum n params (fixedOf params mask), params⟩)) := by
+  unfold handleConstraint at h
+  simp only at h
+  split at h
+  · exact absurd h (by simp)
+  · rename_i hlen
+    split at h
+    · exact absurd h (by simp)
+    · rename_i hlen2
+      split at h
+      · exact absurd h (by simp)
+      · rename_i hsum
+        refine ⟨by simpa using hlen, by simpa using hlen2, by simpa using hsum, ?_⟩
+        split at h
+        · rename_i h1
+          split at h
+          · left; exact ⟨h1, by simpa using h.symm⟩
+          · exact absurd h (by simp)
+        · rename_i h1
+          split at h
+          · exact absurd h (by simp)
+          · right; exact ⟨h1, by simpa using h.symm⟩
+
+/-! ## dwell-time data of a track group -/
+
+/-- specification of a track's dwell time: number of line steps × line time -/
+def specDuration (t : Track) : Rat := ((t.last - t.first : Int) : Rat) * t.lineTime
+
+theorem duration_eq (t : Track) : t.duration = specDuration t := by
+  unfold Track.duration specDuration; push_cast; ring
+
+/-- a track contributes iff its dwell time is positive and, when ambiguous dwells are excluded,
+    it touches neither the first nor the last scan line -/
+def keep (excl : Bool) (t : Track) : Bool := decide (0 < specDuration t) && (!excl || t.endsDefined)
+
+/-- the row a kept track contributes: its duration, its own minimum observable duration, its
+    kymograph's total duration `#lines · line time`, and the line time as discretisation step -/
+def specRow? (t : Track) : Option Row :=
+  t.minObs.map fun m => ⟨specDuration t, m, (t.nLines : Rat) * t.lineTime, t.lineTime⟩
+
+/-- tracks of the same kymograph agree on that kymograph's geometry -/
+def Consistent (tracks : List Track) : Prop :=
+  ∀ t ∈ tracks, ∀ u ∈ tracks, t.kymo = u.kymo → t.nLines = u.nLines ∧ t.lineTime = u.lineTime
+
+theorem allSome_eq_some {β : Type} : ∀ (l : List (Option β)) (r : List β),
+    allSome l = some r ↔ l = r.map some := by
+  intro l
+  induction l with
+  | nil => intro r; cases r <;> simp [allSome]
+  | cons x xs ih =>
+    intro r
+    cases x with
+    | none => cases r <;> simp [allSome]
+    | some x =>
+      cases r with
+      | nil => simp [allSome]
+      | cons y ys =>
+        simp only [allSome, Option.map_eq_some_iff, List.map_cons, List.cons.injEq, Option.some.injEq]
+        constructor
+        · rintro ⟨r', hr', hx, hy⟩
+          exact ⟨hx, by rw [← hy]; exact (ih r').1 hr'⟩
+        · rintro ⟨hx, hxs⟩
+          exact ⟨ys, (ih ys).2 hxs, hx, rfl⟩
+
+theorem allSome_eq_none {β : Type} : ∀ (l : List (Option β)), allSome l = none ↔ none ∈ l := by
+  intro l
+  induction l with
+  | nil => simp [allSome]
+  | cons x xs ih =>
+    cases x with
+    | none => simp [allSome]
+    | some x => simp [allSome, ih]
+
+theorem mem_uniqFirst (a : Nat) : ∀ l : List Nat, a ∈ uniqFirst l ↔ a ∈ l := by
+  intro l
+  induction l with
+  | nil => simp [uniqFirst]
+  | cons x xs ih =>
+    simp only [uniqFirst, List.mem_cons, List.mem_filter, ih, decide_eq_true_eq]
+    by_cases h : a = x <;> simp [h]
+
+theorem nodup_uniqFirst : ∀ l : List Nat, (uniqFirst l).Nodup := by
+  intro l
+  induction l with
+  | nil => simp [uniqFirst]
+  | cons x xs ih =>
+    simp only [uniqFirst, List.nodup_cons, List.mem_filter, decide_eq_true_eq]
+    exact ⟨fun h => h.2 rfl, ih.filter _⟩
+
+theorem flatMap_ite_singleton {β : Type} (t : β) (a : Nat) : ∀ ks : List Nat, ks.Nodup → a ∈ ks →
+    ks.flatMap (fun k => if a = k then [t] else []) = [t] := by
+  intro ks
+  induction ks with
+  | nil => intro _ h; simp at h
+  | cons k ks ih =>
+    intro hnd hmem
+    rw [List.nodup_cons] at hnd
+    rw [List.flatMap_cons]
+    by_cases hk : a = k
+    · subst hk
+      have : ks.flatMap (fun k => if a = k then [t] else []) = [] := by
+        rw [List.flatMap_eq_nil_iff]
+        intro k hk
+        have : a ≠ k := fun e => hnd.1 (e ▸ hk)
+        simp [this]
+      simp [this]
+    · have hm : a ∈ ks := by
+        rcases List.mem_cons.1 hmem with h | h
+        · exact absurd h hk
+        · exact h
+      simp [hk, ih hnd.2 hm]
+
+/-- grouping by key (keys distinct and covering) is a permutation -/
+theorem perm_flatMap_filter_key (key : Track → Nat) (ks : List Nat) (hnd : ks.Nodup) :
+    ∀ l : List Track, (∀ t ∈ l, key t ∈ ks) →
+      (ks.flatMap fun k => l.filter fun t => key t = k).Perm l := by
+  intro l
+  induction l with
+  | nil => intro _; simp
+  | cons t ts ih =>
+    intro hmem
+    have hsplit : (ks.flatMap fun k => (t :: ts).filter fun u => key u = k)
+        = ks.flatMap fun k => (if key t = k then [t] else []) ++ ts.filter fun u => key u = k := by
+      congr 1
+      funext k
+      by_cases hk : key t = k <;> simp [List.filter_cons, hk]
+    rw [hsplit]
+    refine (List.flatMap_append_perm ks _ _).symm.trans ?_
+    rw [flatMap_ite_singleton t (key t) ks hnd (hmem t (List.mem_cons_self ..))]
+    exact List.Perm.cons t (ih fun u hu => hmem u (List.mem_cons_of_mem _ hu))
+
+theorem flatMap_of_map_eq {γ δ ε : Type} (f : γ → Option δ) (g : δ → List ε) (h' : γ → List ε) :
+    ∀ (gs : List γ) (parts : List δ), gs.map f = parts.map some →
+      (∀ G ∈ gs, ∀ p, f G = some p → g p = h' G) → parts.flatMap g = gs.flatMap h' := by
+  intro gs
+  induction gs with
+  | nil => intro parts hm _; cases parts <;> simp at hm ⊢
+  | cons G gs ih =>
+    intro parts hm hh
+    cases parts with
+    | nil => simp at hm
+    | cons p ps =>
+      simp only [List.map_cons, List.cons.injEq] at hm
+      rw [List.flatMap_cons, List.flatMap_cons, hh G (List.mem_cons_self ..) p hm.1,
+        ih ps hm.2 fun G' hG' => hh G' (List.mem_cons_of_mem _ hG')]
+
+theorem kept_eq (excl : Bool) (G : List Track) :
+    (if excl then G.filter Track.endsDefined else G).filter (fun t => decide (0 < t.duration))
+      = G.filter (keep excl) := by
+  cases excl
+  · simp only [Bool.false_eq_true, if_false]
+    exact List.filter_congr fun t _ => by simp [keep, duration_eq]
+  · simp only [if_true, List.filter_filter]
+    exact List.filter_congr fun t _ => by simp [keep, duration_eq]
+
+theorem zip_rows (R : Track → Rat → Row) : ∀ (kept : List Track) (ms : List Rat),
+    kept.map (·.minObs) = ms.map some →
+    ((kept.zip ms).map fun x => R x.1 x.2).map some = kept.map fun t => t.minObs.map (R t) := by
+  intro kept
+  induction kept with
+  | nil => intro ms _; simp
+  | cons t ts ih =>
+    intro ms h
+    cases ms with
+    | nil => simp at h
+    | cons m ms =>
+      simp only [List.map_cons, List.cons.injEq] at h
+      simp only [List.zip_cons_cons, List.map_cons, h.1, Option.map_some, List.cons.injEq, true_and]
+      exact ih ms h.2
+
+theorem extractGroup_rows (excl : Bool) (g0 : Track) (gs : List Track) (rows : List Row) (rem : Bool)
+    (hgeo : ∀ t ∈ g0 :: gs, t.nLines = g0.nLines ∧ t.lineTime = g0.lineTime)
+    (h : extractGroup excl false (g0 :: gs) = some (rows, rem)) :
+    rows.map some = ((g0 :: gs).filter (keep excl)).map specRow? := by
+  unfold extractGroup at h
+  simp only [kept_eq, Bool.false_eq_true, if_false] at h
+  have hnz : ((if excl then (g0 :: gs).filter Track.endsDefined else g0 :: gs).map Track.duration).filter
+      (fun x => decide (0 < x)) = ((g0 :: gs).filter (keep excl)).map Track.duration := by
+    rw [List.filter_map, ← kept_eq]
+    rfl
+  rw [hnz] at h
+  split at h
+  · rename_i hnil
+    have : (g0 :: gs).filter (keep excl) = [] := by simpa using hnil
+    simp only [Option.some.injEq, Prod.mk.injEq] at h
+    rw [this, ← h.1]; rfl
+  · split at h
+    · exact absurd h (by simp)
+    · rename_i ms hms
+      simp only [Option.some.injEq, Prod.mk.injEq] at h
+      rw [← h.1]
+      have hm := (allSome_eq_some _ _).1 hms
+      rw [zip_rows (fun t m => ⟨t.duration, m, (g0.nLines : Rat) * g0.lineTime, g0.lineTime⟩) _ ms hm]
+      refine List.map_congr_left fun t ht => ?_
+      have hg := hgeo t (List.mem_of_mem_filter ht)
+      simp only [specRow?, duration_eq, hg.1, hg.2]
+
+theorem mem_tracksByKymo (tracks G : List Track) (hG : G ∈ tracksByKymo tracks) :
+    ∃ k g0 gs, G = tracks.filter (fun t => decide (t.kymo = k)) ∧ G = g0 :: gs := by
+  unfold tracksByKymo at hG
+  obtain ⟨k, hk, rfl⟩ := List.mem_map.1 hG
+  have hkmem : k ∈ tracks.map (·.kymo) := (mem_uniqFirst k _).1 hk
+  obtain ⟨t0, ht0, hk0⟩ := List.mem_map.1 hkmem
+  cases hG' : tracks.filter (fun t => decide (t.kymo = k)) with
+  | nil =>
+    have : t0 ∈ tracks.filter (fun t => decide (t.kymo = k)) :=
+      List.mem_filter.2 ⟨ht0, by simpa using hk0⟩
+    rw [hG'] at this; simp at this
+  | cons g0 gs => exact ⟨k, g0, gs, hG'.symm ▸ rfl, rfl⟩
+
+theorem extract_rows_perm (excl : Bool) (tracks : List Track) (hc : Consistent tracks)
+    (rows : List Row) (rem : Bool) (h : extract excl false tracks = some (rows, rem)) :
+    (rows.map some).Perm ((tracks.filter (keep excl)).map specRow?) := by
+  unfold extract at h
+  split at h
+  · exact absurd h (by simp)
+  · rename_i parts hparts
+    simp only [Option.some.injEq, Prod.mk.injEq] at h
+    have hm := (allSome_eq_some _ _).1 hparts
+    have hflat : parts.flatMap (fun p => p.1.map some)
+        = (tracksByKymo tracks).flatMap (fun G => (G.filter (keep excl)).map specRow?) := by
+      refine flatMap_of_map_eq _ _ _ _ parts hm ?_
+      intro G hG p hp
+      obtain ⟨k, g0, gs, hGk, hGc⟩ := mem_tracksByKymo tracks G hG
+      obtain ⟨rows', rem'⟩ := p
+      rw [hGc] at hp ⊢
+      refine extractGroup_rows excl g0 gs rows' rem' ?_ hp
+      intro t ht
+      have htm : t ∈ tracks.filter (fun t => decide (t.kymo = k)) := by rw [← hGk, hGc]; exact ht
+      have hg0 : g0 ∈ tracks.filter (fun t => decide (t.kymo = k)) := by
+        rw [← hGk, hGc]; exact List.mem_cons_self ..
+      obtain ⟨ht1, ht2⟩ := List.mem_filter.1 htm
+      obtain ⟨hg1, hg2⟩ := List.mem_filter.1 hg0
+      simp only [decide_eq_true_eq] at ht2 hg2
+      exact hc t ht1 g0 hg1 (by rw [ht2, hg2])
+    rw [← h.1, List.map_flatMap, hflat]
+    unfold tracksByKymo
+    rw [List.flatMap_map]
+    have hcomm : (fun k => ((tracks.filter (fun t => decide (t.kymo = k))).filter (keep excl)).map specRow?)
+        = fun k => ((tracks.filter (keep excl)).filter (fun t => decide (t.kymo = k))).map specRow? := by
+      funext k
+      rw [List.filter_filter, List.filter_filter]
+      congr 1
+      exact List.filter_congr fun t _ => Bool.and_comm _ _
+    rw [hcomm, ← List.map_flatMap]
+    refine (perm_flatMap_filter_key (·.kymo) _ (nodup_uniqFirst _) _ ?_).map _
+    intro t ht
+    exact (mem_uniqFirst _ _).2 (List.mem_map.2 ⟨t, List.mem_of_mem_filter ht, rfl⟩)
+
+/-! ## odds and ends used by the property statements -/
+
+theorem specE_lt_of_lt (a b tau : ℝ) (ht : 0 < tau) (h : a < b) :
+    specE (some b) tau < Real.exp (-a / tau) := by
+  unfold specE
+  rw [Real.exp_lt_exp]
+  have h1 : -b / tau - (-a / tau) = (a - b) / tau := by ring
+  have h2 : (a - b) / tau < 0 := div_neg_of_neg_of_pos (by linarith) ht
+  linarith
+
+theorem specE_lt (a : ℝ) (tmax : Option ℝ) (tau : ℝ) (ht : 0 < tau) (h : ∀ m, tmax = some m → a < m) :
+    specE tmax tau < Real.exp (-a / tau) := by
+  cases tmax with
+  | none => exact Real.exp_pos _
+  | some m => exact specE_lt_of_lt a m tau ht (h m rfl)
+
+theorem scatter_nil : ∀ (ps : List Rat) (fs : List Bool), scatter ps fs [] = ps := by
+  intro ps
+  induction ps with
+  | nil => intro fs; simp [scatter]
+  | cons p ps ih =>
+    intro fs
+    cases fs with
+    | nil => simp [scatter]
+    | cons f fs => cases f <;> simp [scatter, ih]
+
+theorem fixFree_eq_scatter (n : Nat) : ∀ (ps : List Rat) (fs : List Bool) (v : Rat),
+    n ≤ ps.length → n ≤ fs.length → 1 ≤ countTrue n fs → (fixFree n ps fs v).1 = scatter ps fs [v] := by
+  induction n with
+  | zero => intro ps fs v _ _ h; simp [countTrue] at h
+  | succ n ih =>
+    intro ps fs v hp hf h1
+    match ps, fs, hp, hf with
+    | p :: ps, true :: fs, hp, hf => simp [fixFree, scatter, scatter_nil]
+    | p :: ps, false :: fs, hp, hf =>
+      simp only [countTrue, Bool.false_eq_true, if_false, Nat.zero_add] at h1
+      simp only [fixFree, Bool.false_eq_true, if_false, scatter, List.cons.injEq, true_and]
+      exact ih ps fs v (by simpa using hp) (by simpa using hf) h1
+
+theorem sum_map_sub_const (ps : List (ℝ × ℝ)) (tmin : ℝ) (h : ∀ p ∈ ps, p.2 = tmin) :
+    (ps.map fun p => p.1 - p.2).sum = (ps.map (·.1)).sum - (ps.length : ℝ) * tmin := by
+  induction ps with
+  | nil => simp
+  | cons p ps ih =>
+    simp only [List.map_cons, List.sum_cons, List.length_cons]
+    rw [ih fun q hq => h q (List.mem_cons_of_mem _ hq), h p (List.mem_cons_self ..)]
+    push_cast; ring
+
 end Verif.C15
